@@ -278,6 +278,43 @@ class C15Check(PoolCheck):
         return out
 
 
+class C13Check(PoolCheck):
+    """Adds the server family: a control session's pending flush and the program's own flush while the control server is stopped."""
+
+    def prepare(self):
+        from . import control, mods
+
+        self.mods = control.load_control(mods.load())
+
+    def families(self, tier):
+        return super().families(tier) + [("server", 48 if tier == "quick" else 1500)]
+
+    def make_case(self, fam, seed, i, tier):
+        if fam == "server":
+            import random
+
+            from . import c13s
+
+            return c13s.gen_case(random.Random(f"{seed}:C13s:{i}"))
+        return super().make_case(fam, seed, i, tier)
+
+    def run_case(self, case, verbose=False):
+        if not case.get("server_flush"):
+            return super().run_case(case, verbose)
+        from . import c13s
+
+        w = c13s.World(self.mods, case)
+        r = w.run()
+        out = {"viol": r["viol"], "sit": r["sit"], "inconclusive": r["inconclusive"], "nontrivial": r["sit"].get("C13.server.kept", 0) > 0,
+               "sig": "server:" + str(case["seed"]), "extra": {}}
+        if r["viol"]:
+            out["log_tail"] = w.log[-40:]
+        if verbose:
+            out["log"] = w.log
+        out["sample"] = {"case": case, "log_head": w.log[:12]}
+        return out
+
+
 def has(*keys):
     def f(sit):
         return all(any(k2.startswith(k) and v > 0 for k2, v in sit.items()) for k in keys)
@@ -325,7 +362,7 @@ reg(PoolCheck(
 ))
 
 reg(PoolCheck(
-    "C04", P(cls=["T", "T", "S"], w={"apply": 12, "start": 12, "map": 3, "lock": 3, "unlock": 2, "gac": 1, "cancel": 3, "cancel_group": 2, "reject": 0, "set_size": 0.8, "regroup": 2.5},
+    "C04", P(cls=["T", "T", "S"], npools=[1, 1, 2, 2], w={"apply": 12, "start": 12, "map": 3, "lock": 3, "unlock": 2, "gac": 1, "cancel": 3, "cancel_group": 2, "reject": 0, "set_size": 0.8, "regroup": 2.5},
              callraise=0.2),
     "random scenarios dominated by apply/start requests (num 0..8, args/kwargs shapes) on small pools with lock/unlock/gather_and_close and unrelated "
     "cancellations after acceptance; non-trivial = a request was accepted on a full pool and completed its exact count; distinct by signature",
@@ -335,7 +372,7 @@ reg(PoolCheck(
 ))
 
 reg(PoolCheck(
-    "C05", P(cls=["T"], sizes=[1, 2, 2, 3, 4, None, None], w={"map": 14, "apply": 3, "cancel": 4, "start": 0, "stop": 0, "cancel_group": 1, "cancel_all": 0.3, "reject": 0},
+    "C05", P(cls=["T"], sizes=[1, 2, 2, 3, 4, None, None], w={"map": 14, "apply": 3, "cancel": 4, "start": 0, "stop": 0, "cancel_group": 1, "cancel_all": 0.3, "reject": 0, "set_size": 0.8},
              bad_elems=0.35, gate=0.4),
     "random scenarios with 1-4 concurrent map/starmap/doublestarmap requests (0..12 elements through a counting generator, num_concurrent 1..4), "
     "gated completion orders, single cancellations, bad elements; non-trivial = more elements than num_concurrent and the tight laziness bound was reached; distinct by signature",
@@ -364,7 +401,7 @@ reg(PoolCheck(
 ))
 
 reg(PoolCheck(
-    "C08", P(sizes=[1, 1, 2, 2, 3, None], w={"gac": 5, "cancel_all": 2, "cancel_group": 3, "lock": 1.5, "reject": 0, "probe": 0}, final_gac=1.0, cb=0.7, cb_gate=0.35),
+    "C08", P(sizes=[1, 1, 2, 2, 3, None], w={"gac": 5, "cancel_all": 2, "cancel_group": 3, "lock": 1.5, "reject": 0, "probe": 0, "set_size": 1.0}, final_gac=1.0, cb=0.7, cb_gate=0.35),
     "random scenarios ending in (or interleaved with) gather_and_close() with until_closed() waiters: pending and blocked spawners, groups cancelled in the same tick, "
     "tasks mid-callback; non-trivial = a spawner still had work or a callback was in progress at call time; distinct by signature",
     lambda s: s.get("C08.hist.pending_spawner", 0) > 0 or s.get("C08.hist.mid_callback", 0) > 0,
@@ -405,7 +442,7 @@ reg(PoolCheck(
 ))
 
 reg(C12Check(
-    "C12", P(fault=0.35, callraise=0.25, bad_elems=0.3, w={"flush": 5, "gac": 1, "reject": 0, "probe": 1}, cb=0.7, sizes=[1, 1, 2, 2, 3, None]),
+    "C12", P(fault=0.35, callraise=0.25, bad_elems=0.3, w={"flush": 5, "gac": 1, "reject": 0, "probe": 1, "set_size": 1.0}, cb=0.7, sizes=[1, 1, 2, 2, 3, None]),
     "random fault plans: raising bodies, raising call sites, raising plain/async end and cancel callbacks among healthy work on small pools, "
     "with flush()/gather_and_close() in both return_exceptions modes and a capacity probe at the end; family 'twin' re-runs each scenario with every injected "
     "body/callback failure replaced by success at the same point and demands an identical event log (iteration and handle stamps included); non-trivial = an injected exception was raised "
@@ -415,13 +452,13 @@ reg(C12Check(
     floors={"C12.flush_raised_injected": 100, "C12.flush_rex_ok": 300, "end.raise": 3000, "C12.capacity_ok_after_faults": 500, "C12.others_complete_ok": 500, "C12.twin_compared": 500},
 ))
 
-reg(PoolCheck(
+reg(C13Check(
     "C13", P(w={"flush": 10, "cancel": 5, "open": 8, "intruder": 4, "reject": 0}, cb=0.85, cb_async=0.7, cb_gate=0.5, gate=0.4),
     "random scenarios with 1-3 overlapping flush() calls while tasks end, are cancelled and sit in gated async callbacks; "
     "non-trivial = a flush was suspended while a callback was in progress; distinct by signature",
     lambda s: s.get("C13.flush_overlap_cb", 0) > 0 or s.get("C13.flush_suspended", 0) > 0,
     6000, 240000,
-    floors={"C13.flush_returned": 4000, "C13.flush_overlap_cb": 150, "C13.forgotten_probe": 5000},
+    floors={"C13.flush_returned": 4000, "C13.flush_overlap_cb": 150, "C13.forgotten_probe": 5000, "C13.server.kept": 20, "C13.server.flush_answered": 20, "flush_abandoned": 50},
 ))
 
 reg(PoolCheck(
